@@ -322,6 +322,13 @@ func runC12(c *an.Ctx) {
 					}
 				}
 				nIns++
+				// exception (one symbol chain, one reason): a method reached only from the re-attach hook counts jobs
+				// that are ALREADY submitted to the cluster; they use a slot whether or not there is room for them
+				if callers := effectiveCallers(p, fn, []string{"(*RemoteJobManager).reattach"}); len(callers) == 1 && callers[0] == "(*RemoteJobManager).reattach" {
+					c.Pass("K2", "slot(running[m]=)@"+an.FnName(fn)+":re-attached-job-is-counted-unconditionally", in.Pos(),
+						"only called from RemoteJobManager.reattach: the job is already in the cluster, it is counted without waiting for capacity")
+					return
+				}
 				ok, w := an.GuardedBy(in, func(r an.Rel) bool {
 					lenRunning := func(v ssa.Value) bool {
 						args, ok := an.IsBuiltinCall(v, "len")
@@ -415,6 +422,7 @@ func runC12(c *an.Ctx) {
 	c12Local(c)
 	c12Remote(c)
 	c12Baton(c, fns)
+	ruleK7(c)
 }
 
 // loadBefore reports whether the field load v happens before the store st on
